@@ -291,6 +291,38 @@ func runC19(c *Ctx) {
 						found = true
 					}
 				})
+				// or: the field's address handed to a helper that stores the result of UnmarshalSelectionSet through it
+				allInstrs(f, func(in ssa.Instruction) {
+					fa, ok := in.(*ssa.FieldAddr)
+					if !ok {
+						return
+					}
+					_, name, _, _ := fieldOf(fa)
+					if name != k.Field.Name() || !derivesFromParam(fa.X, recv) {
+						return
+					}
+					for _, ref := range *fa.Referrers() {
+						ci, ok := ref.(ssa.CallInstruction)
+						if !ok {
+							continue
+						}
+						h := ci.Common().StaticCallee()
+						if h == nil || !p.inModule(h) || len(h.Blocks) == 0 {
+							continue
+						}
+						for j, a := range ci.Common().Args {
+							if a != ssa.Value(fa) || j >= len(h.Params) {
+								continue
+							}
+							prm := h.Params[j]
+							allInstrs(h, func(in2 ssa.Instruction) {
+								if st2, ok := in2.(*ssa.Store); ok && st2.Addr == ssa.Value(prm) && comesFromCall(st2.Val, uss, 0) {
+									found = true
+								}
+							})
+						}
+					}
+				})
 			}
 			if found {
 				r2.OK(s.Obj().Name()+"."+k.Name, "stored from UnmarshalSelectionSet")
